@@ -4,7 +4,8 @@ import Apko.Model.Confine
 * `cf.san <base> <p>` / `cf.arch <d> <t>`            lexical vetting: `ok <v>` | `tainted`
 * `cf.link <base> <old>`                              `dirFS.Link` target test: `ok` | `outside`
 * `cf.url <root> <path> <esc>`                        `cachePathFromURL`: `ok <file>` | `err`
-* `cf.pkgdir <root> <path> <esc>`                     `cacheDirForPackage`
+* `cf.pkgdir <root> <path> <esc> <urlok> <name> <checksum> GO=<go>`   `cacheDirForPackage` on a package record
+      (`urlok` = 0: `packageAsURL` failed); verdict on Go's answer: an accepted entry is absolute and reads within the root
 * `cf.etag none|empty|val <value>`                    `etagFromResponse`: `ok <etag>` | `none`
 * `cf.etagfile <cacheFile> <etag>`                    `cacheFileFromEtag`: `ok <file>` | `err`
 * `cf.cachedir <cacheFile>`                           `cacheDirFromFile`
@@ -12,6 +13,8 @@ import Apko.Model.Confine
 * `cf.keyname <name>`                                 `parseRepositoryIndex` key-name test: `ok` | `reject`
 * `cf.dirfs <op>… GO=<go>`                            a sequence of `dirFS` calls in the canary tree; answer
       `r1/diff1;r2/diff2;…` (result class and outside diff per call), verdict = no outside diff in Go's answer
+* `cf.archeffect <why> <arch> <diff>`                  oracle only (commands run with a hostile architecture string): pass iff
+      the diff is empty; class F18f iff the architecture contains a separator
 * `cf.effect <why> <lexical 0|1> <diff>`              oracle only (apko-level cases): pass iff the diff is empty
 
 All strings are hex.  Ops: `method,name,old,data,flag,perm,mtime,uid,gid,dev`.
@@ -91,6 +94,17 @@ def handle (args : List String) : Option String :=
       | some v => if withinC root v then impl else none
       | none => none
     some <| triple (optS "err" impl) (optS "err" spec) "unlisted"
+  | ["cf.pkgdir", root, path, esc, urlok, name, chk, go] =>
+    let root := unhexS root
+    let pkg : PkgRec := { urlPath := unhexS path, urlEsc := unhexS esc, name := unhexS name, checksum := unhexS chk }
+    let impl := if urlok = "1" then cacheDirForPkg root pkg else none
+    let go := (go.drop 3).toString
+    -- the oracle, on what Go answered: refusing is always fine; an entry must be absolute and, read by the kernel
+    -- (lexically cleaned), lie within the cache root
+    let ok := match go.splitOn " " with
+      | ["ok", v] => let v := unhexS v; isAbs v && withinC root (clean v)
+      | _ => true
+    some (optS "err" impl ++ "\t" ++ (if ok then "pass" else "fail:pkg-entry-outside-cache-root") ++ "\t" ++ (if ok then "-" else "unlisted"))
   | ["cf.etag", kind, v] =>
     let hdr : Option (List Text) := match kind with
       | "none" => none | "empty" => some [] | _ => some [unhexS v]
@@ -137,6 +151,12 @@ def handle (args : List String) : Option String :=
         let cls := if rs.all (fun r => r.2.2) then "F18c" else "unlisted"
         some (impl ++ "\t" ++ (if bad then "fail:outside-effect" else "pass") ++ "\t" ++ (if bad then cls else "-"))
     | [] => none
+  | ["cf.archeffect", why, arch, diff] =>
+    -- F18f: an architecture string with a separator is not one component of the names derived from it
+    -- (`arch_paths_within_partial` needs '/' ∉ arch; `not_arch_paths_within` is the witness)
+    let bad := diff ≠ ""
+    let cls := if (unhexS arch).contains '/' then "F18f" else "unlisted"
+    some ("-\t" ++ (if bad then "fail:" ++ why else "pass") ++ "\t" ++ (if bad then cls else "-"))
   | ["cf.effect", why, lexical, diff] =>
     let bad := diff ≠ ""
     let cls := if lexical = "1" then "F18c" else "unlisted"
